@@ -536,7 +536,124 @@ func runC02(c *Ctx, emit func(cs *progs.Case) progs.Obs) {
 		}
 	}
 	runC02Directed(c, probe, probeSel)
+	runC02Floats(c, probe, probeSel)
 	runC02History(c, emit)
+}
+
+// floatThresholds: the decimal magnitudes at which the text of a float changes shape: the two at which the notation
+// changes ('f' below 1e21 and from 1e-6 on, 'e' outside: the first two entries), and those at which the exponent text
+// changes length or the exponent clean-up (e-07 -> e-7) applies or stops applying, the ends of the normal and
+// subnormal ranges of both widths.
+var floatThresholds = []float64{1e-6, 1e21, 1e-5, 1e-7, 1e-9, 1e-10, 1e-11, 1e20, 1e22, 1e9, 1e10, 1e-37, 1e-38, 1e-45, 1e38, 1e-99, 1e-100, 1e99, 1e100, 1e-307, 1e-308, 1e-323, 1e308}
+
+// around64: the float64 bit patterns at and next to a threshold: the float64 nearest to it and its neighbours up to two
+// ulps away; the float32 nearest to it and that one's float32 neighbours, each widened (what a float32 looks like to
+// code that compares in float64), with their float64 neighbours; the midpoints between those float32 values (what
+// rounds to the threshold, or just not, for code that compares a float64 in float32)
+func around64(t float64) (out []float64) {
+	add := func(f float64) {
+		if !math.IsInf(f, 0) && !math.IsNaN(f) {
+			out = append(out, f)
+		}
+	}
+	b := math.Float64bits(t)
+	for d := -2; d <= 2; d++ {
+		add(math.Float64frombits(uint64(int64(b) + int64(d))))
+	}
+	if t32 := float32(t); t32 != 0 && !math.IsInf(float64(t32), 0) {
+		b32 := math.Float32bits(t32)
+		var prev float64
+		for d := -1; d <= 1; d++ {
+			w := float64(math.Float32frombits(uint32(int32(b32) + int32(d))))
+			wb := math.Float64bits(w)
+			add(math.Float64frombits(wb - 1))
+			add(w)
+			add(math.Float64frombits(wb + 1))
+			if d > -1 {
+				mid := prev + (w-prev)/2
+				mb := math.Float64bits(mid)
+				add(math.Float64frombits(mb - 1))
+				add(mid)
+				add(math.Float64frombits(mb + 1))
+			}
+			prev = w
+		}
+	}
+	return
+}
+
+// around32: the float32 bit patterns at and next to a threshold (up to two ulps away)
+func around32(t float64) (out []float32) {
+	t32 := float32(t)
+	if math.IsInf(float64(t32), 0) {
+		t32 = math.MaxFloat32
+	}
+	b := math.Float32bits(t32)
+	for d := -2; d <= 2; d++ {
+		if int64(b)+int64(d) < 0 {
+			continue
+		}
+		f := math.Float32frombits(uint32(int64(b) + int64(d)))
+		if !math.IsInf(float64(f), 0) && !math.IsNaN(float64(f)) {
+			out = append(out, f)
+		}
+	}
+	return
+}
+
+// runC02Floats: "finite floats as the identical float32/float64 rendered the way encoding/json renders them (at
+// FloatingPointPrecision -1)": a directed sweep of the bit patterns at and next to every threshold the text depends on,
+// in both widths and both signs.  The patterns around the two notation thresholds go, one value per event, through
+// every entry point of Float32 / Float64; all patterns go, as slices, through every entry point of Floats32 / Floats64
+// and, one value per event, through the entry points in rotation.  The monitor is checkFloat: the number read back is
+// the identical float and its text is encoding/json's.  Also at precisions 0 and 3 (the text strconv's 'f' format gives).
+func runC02Floats(c *Ctx, probe func(string, progs.Prim, progs.Settings), probeSel func(string, progs.Prim, progs.Settings, func(string) bool)) {
+	def := progs.DefaultSettings()
+	def.LevelName = ""
+	entries := []string{"event", "context", "array", "fields-slice", "dict", "fields-map", "object"}
+	step := 0
+	for ti, t := range floatThresholds {
+		var v64 []float64
+		for _, f := range around64(t) {
+			v64 = append(v64, f, -f)
+		}
+		var v32 []float32
+		for _, f := range around32(t) {
+			v32 = append(v32, f, -f)
+		}
+		probe("Floats64", progs.Prim{M: "Floats64", V: v64}, def)
+		probe("Floats32", progs.Prim{M: "Floats32", V: v32}, def)
+		for _, prec := range []int{0, 3} {
+			s := def
+			s.Prec = prec
+			want := entries[(ti+prec)%len(entries)]
+			sel := func(e string) bool { return e == want || (want == "array" && e == "event") } // (slices are no array elements)
+			probeSel("Floats64", progs.Prim{M: "Floats64", V: v64}, s, sel)
+			probeSel("Floats32", progs.Prim{M: "Floats32", V: v32}, s, sel)
+		}
+		notation := ti < 2
+		for i, f := range v64 {
+			switch {
+			case notation || c.Thorough():
+				probe("Float64", progs.Prim{M: "Float64", V: f}, def)
+			case i%6 == ti%6: // quick tier: every third pattern in one sign (all patterns, both signs, are in the slices)
+				want := entries[step%len(entries)]
+				step++
+				probeSel("Float64", progs.Prim{M: "Float64", V: f}, def, func(e string) bool { return e == want })
+			}
+		}
+		for i, f := range v32 {
+			switch {
+			case notation || c.Thorough():
+				probe("Float32", progs.Prim{M: "Float32", V: f}, def)
+			case i%6 == ti%6:
+				want := entries[step%len(entries)]
+				step++
+				probeSel("Float32", progs.Prim{M: "Float32", V: f}, def, func(e string) bool { return e == want })
+			}
+		}
+		c.Hist("c02_float_threshold", strconv.FormatFloat(t, 'g', -1, 64))
+	}
 }
 
 // probeHistory: set by sweeps whose cases are meant to follow one another (what was logged by the previous case)
